@@ -1112,7 +1112,13 @@ def scen_C07(ctx):
         g = G.G(ctx.seed, 'C07', i)
         kt = G.KTS[i % 5]
         ks = g.key_universe(kt, g.rng.choice([4, 12, 30]))
-        body = g.hist(kt, ctx.scale(120, 500), keys=ks, big=0.08) + ['len m0', 'iter m0 iter']
+        pre = []
+        if i % 3 == 0:
+            # many keys: the KEY file outgrows one 4 KiB chunk of an Auto-buffered file (and records straddle chunk boundaries)
+            more = g.key_universe(kt, 300)
+            pre = ['put m0 %s %02x' % (G.hx(k), j % 251) for j, k in enumerate(more)]
+            ks = ks + more[::25]
+        body = pre + g.hist(kt, ctx.scale(120, 500), keys=ks, big=0.08) + ['len m0', 'iter m0 iter']
         for k in ks:
             body.append('get m0 %s' % G.hx(k))
         cfgs = g.rng.sample(CONFIGS, 4)
@@ -1161,6 +1167,7 @@ def scen_C07(ctx):
         if a != b:
             # the model's copy of the load-factor rule differs: reported, not a condition (DESIGN.md C07)
             ctx.distribution.setdefault('buckets_rule_differs', {})[a] = 1
+    io_traces(ctx, ctx.scale(8, 60), ctx.scale(3, 12), 0, 0)
     # L_cache: the model of the buffer cache (Cache.v, proved transparent for >= 2 chunks) against the real rabuf
     import scen_cache as SC
     rule0 = ctx.rule
